@@ -5,6 +5,11 @@ From Verif Require Export Percolator.Layer2e.
 Definition onepcm (s : sys) (T : N) : Prop :=
   hasm s T /\ F s T FTried1 <> 0 /\ F s T FFb1 = 0 /\ F s T FStFb = 0.
 Definition call (s : sys) (T : N) : list N := c_all (getc s T).
+Lemma onepcm_cp : forall s T, onepcm s T -> cp_active (getc s T) = true.
+Proof.
+  intros s T [_ [H1 [H2 _]]]. unfold cp_active, onepc_on, F in *. apply fb_true in H1. rewrite H1.
+  rewrite (proj2 (fb_false _ _) H2). apply orb_true_r.
+Qed.
 
 Record oinv (s : sys) (T : N) : Prop := {
   o_send : forall r p ks a o m f secs, In (EPwSend r T p ks a o m f secs) (s_sent s) ->
